@@ -29,3 +29,11 @@ Print Assumptions C11_fair_terminates.
 Theorem C11_exit_after_last : forall c s o, loop_done s = true -> loop sched_params c s o = (final sched_params c s, s).
 Proof. exact (fun c s o H => match o with [] => ltac:(cbn [loop]; rewrite H; reflexivity) | _ :: _ => ltac:(cbn [loop]; rewrite H; reflexivity) end). Qed.
 Print Assumptions C11_exit_after_last.
+
+(* ---- worker processes: a worker that is dead when wait() begins (killed, or exited) has, when that wait()
+   returns, a finished future (TaskDiedError unless its result had been queued) and no longer occupies a slot. *)
+Require Import LT.Model.Exec LT.Proofs.ExecProofs.
+Theorem C11_dead_detected : forall e i, running_not_done e -> In i (dead_ids e) ->
+  done (fut_of (consume e) i) = true /\ has (running (consume e)) i = false.
+Proof. exact (fun e i H Hin => conj (dead_worker_done e i Hin) (dead_worker_removed e i H Hin)). Qed.
+Print Assumptions C11_dead_detected.
